@@ -828,35 +828,94 @@ Qed.
 (* ------------------------------------------------------------------ *)
 (* The class statement                                                  *)
 
-Definition member_ok (reserved : list string) (m : smember) : Prop :=
-  exists v, eval_member reserved m = Ok v.
+(* the namespace after the lines [p] holds, under every name, what the name
+   denotes there *)
+Definition ns_denotes reserved dicts (p : list (string * smember)) (ns : dict member) : Prop :=
+  forall k, dict_get k ns = denotes reserved dicts (rev p) k.
 
-Lemma eval_body_ok reserved b : forall ns0 ns, eval_body reserved b ns0 = Ok ns ->
-  (forall k m, In (k, m) b -> member_ok reserved m) /\
-  (forall k, dict_get k ns =
-             match lookup_last k b with
-             | Some m => match eval_member reserved m with Ok v => Some v | Err _ => None end
-             | None => dict_get k ns0
-             end) /\
+Lemma ns_denotes_nil reserved dicts : ns_denotes reserved dicts [] [].
+Proof. intros k. reflexivity. Qed.
+
+Lemma ns_denotes_step reserved dicts p ns k m v :
+  ns_denotes reserved dicts p ns -> eval_member reserved dicts ns m = Ok v ->
+  ns_denotes reserved dicts (p ++ [(k, m)]) (dict_set k v ns).
+Proof.
+  intros H E k0. rewrite rev_unit. cbn [denotes]. rewrite dict_get_set.
+  destruct (String.eqb k k0); [|apply H].
+  destruct m as [d| |k2|c k2]; cbn [eval_member] in E.
+  - destruct (construct reserved d) as [s|e]; [|discriminate]. inversion E; reflexivity.
+  - inversion E; reflexivity.
+  - rewrite <- (H k2). destruct (dict_get k2 ns); [|discriminate]. inversion E; reflexivity.
+  - destruct (class_attr dicts c k2); [|discriminate]. inversion E; reflexivity.
+Qed.
+
+Lemma eval_member_ok_iff reserved dicts p ns m :
+  ns_denotes reserved dicts p ns ->
+  (exists v, eval_member reserved dicts ns m = Ok v) <-> entry_ok reserved dicts p m.
+Proof.
+  intros H. destruct m as [d| |k2|c k2]; cbn [eval_member entry_ok].
+  - rewrite <- construct_ok_iff. split.
+    + intros [v E]. destruct (construct reserved d) as [s|e]; [exists s; reflexivity | discriminate].
+    + intros [s E]. rewrite E. eexists; reflexivity.
+  - split; [trivial | intros _; eexists; reflexivity].
+  - rewrite <- (H k2). destruct (dict_get k2 ns) as [v|].
+    + split; [intros _; discriminate | intros _; exists v; reflexivity].
+    + split; [intros [v E]; discriminate | intros N; contradiction].
+  - destruct (class_attr dicts c k2) as [v|].
+    + split; [intros _; discriminate | intros _; exists v; reflexivity].
+    + split; [intros [v E]; discriminate | intros N; contradiction].
+Qed.
+
+Lemma eval_body_ok reserved dicts b : forall p ns0 ns,
+  ns_denotes reserved dicts p ns0 -> eval_body reserved dicts b ns0 = Ok ns ->
+  ns_denotes reserved dicts (p ++ b) ns /\
+  (forall q k m r, b = q ++ (k, m) :: r -> entry_ok reserved dicts (p ++ q) m) /\
   (NoDup (keys ns0) -> NoDup (keys ns)).
 Proof.
-  induction b as [|[k1 m1] r IH]; intros ns0 ns H; cbn [eval_body] in H.
-  - inversion H; subst. repeat split; [intros k m [] | auto].
-  - destruct (eval_member reserved m1) as [v1|e1] eqn:E1; [|discriminate].
-    destruct (IH _ _ H) as (A & B & C). repeat split.
-    + intros k m [I|I]; [inversion I; subst; exists v1; exact E1 | exact (A k m I)].
-    + intros k. rewrite B. cbn [lookup_last]. destruct (lookup_last k r); [reflexivity|].
-      rewrite dict_get_set. destruct (String.eqb k1 k); [rewrite E1|]; reflexivity.
+  induction b as [|[k1 m1] r IH]; intros p ns0 ns D H; cbn [eval_body] in H.
+  - inversion H; subst. rewrite app_nil_r. repeat split; [exact D | | auto].
+    intros q k m r E. destruct q; discriminate.
+  - destruct (eval_member reserved dicts ns0 m1) as [v1|e1] eqn:E1; [|discriminate].
+    destruct (IH _ _ _ (ns_denotes_step reserved dicts p ns0 k1 m1 v1 D E1) H) as (A & B & C).
+    rewrite <- app_assoc in A. repeat split.
+    + exact A.
+    + intros q k m r' E. destruct q as [|x q]; cbn [app] in E.
+      * inversion E; subst. rewrite app_nil_r.
+        apply (eval_member_ok_iff reserved dicts p ns0 m D). exists v1. exact E1.
+      * inversion E; subst. specialize (B q k m r' eq_refl).
+        rewrite <- app_assoc in B. exact B.
     + intros N. apply C, NoDup_keys_set, N.
 Qed.
 
-Lemma eval_body_total reserved b : forall ns0,
-  (forall k m, In (k, m) b -> member_ok reserved m) -> exists ns, eval_body reserved b ns0 = Ok ns.
+Lemma eval_body_total reserved dicts b : forall p ns0,
+  ns_denotes reserved dicts p ns0 ->
+  (forall q k m r, b = q ++ (k, m) :: r -> entry_ok reserved dicts (p ++ q) m) ->
+  exists ns, eval_body reserved dicts b ns0 = Ok ns.
 Proof.
-  induction b as [|[k1 m1] r IH]; intros ns0 H; cbn [eval_body].
+  induction b as [|[k1 m1] r IH]; intros p ns0 D H; cbn [eval_body].
   - eexists; reflexivity.
-  - destruct (H k1 m1 (or_introl eq_refl)) as [v1 E1]. rewrite E1.
-    apply IH. intros k m I. apply (H k m). right. exact I.
+  - assert (O : entry_ok reserved dicts p m1).
+    { specialize (H [] k1 m1 r eq_refl). rewrite app_nil_r in H. exact H. }
+    apply (eval_member_ok_iff reserved dicts p ns0 m1 D) in O. destruct O as [v1 E1]. rewrite E1.
+    apply (IH (p ++ [(k1, m1)]) _ (ns_denotes_step reserved dicts p ns0 k1 m1 v1 D E1)).
+    intros q k m r' E. rewrite <- app_assoc. apply (H ((k1, m1) :: q) k m r'). rewrite E. reflexivity.
+Qed.
+
+(* a failing body fails with the error of its first line that cannot be
+   executed: a decorator error or an unbound name, never a __set_name__ error *)
+Lemma eval_body_err reserved dicts b : forall ns0 e,
+  eval_body reserved dicts b ns0 = Err e -> e <> EAlias /\ e <> ENotStateMachine.
+Proof.
+  induction b as [|[k1 m1] r IH]; intros ns0 e H; cbn [eval_body] in H; [discriminate|].
+  destruct (eval_member reserved dicts ns0 m1) as [v1|e1] eqn:E1.
+  - exact (IH _ _ H).
+  - inversion H; subst e1. destruct m1 as [d| |k2|c k2]; cbn [eval_member] in E1.
+    + unfold construct, check_name in E1. destruct (mem (d_fname d) reserved).
+      * inversion E1; split; discriminate.
+      * destruct (validate_sig (d_params d)); inversion E1; split; discriminate.
+    + discriminate.
+    + destruct (dict_get k2 ns0); inversion E1; split; discriminate.
+    + destruct (class_attr dicts c k2); inversion E1; split; discriminate.
 Qed.
 
 Lemma set_names_ok_iff osm ns :
@@ -898,170 +957,261 @@ Proof.
     exists k, s. split; [left; reflexivity | exact E].
 Qed.
 
-Lemma member_ok_iff reserved m :
-  member_ok reserved m <->
-  match m with
-  | SState d => ~ In (d_fname d) reserved /\ ~ sig_faulty (d_params d)
-  | SOther => True
-  end.
+(* what the class namespace finally holds is what the names finally denote *)
+Lemma final_ns reserved dicts b ns : eval_body reserved dicts b [] = Ok ns ->
+  forall k m, In (k, m) ns <-> denotes reserved dicts (rev b) k = Some m.
 Proof.
-  unfold member_ok. destruct m as [d|]; cbn [eval_member].
-  - rewrite <- construct_ok_iff. split.
-    + intros [v H]. destruct (construct reserved d) as [s|e]; [exists s; reflexivity | discriminate].
-    + intros [s H]. rewrite H. eexists; reflexivity.
-  - split; [trivial | intros _; eexists; reflexivity].
+  intros E k m. destruct (eval_body_ok reserved dicts b [] [] ns (ns_denotes_nil _ _) E) as (G & _ & N).
+  cbn [app] in G. rewrite <- (G k). split.
+  - apply In_dict_get. apply N. constructor.
+  - apply dict_get_In.
 Qed.
 
-Theorem define_ok_iff reserved osm b :
-  (exists ns, define_class reserved osm b = Ok ns) <->
-  (forall k d, In (k, SState d) b -> ~ In (d_fname d) reserved /\ ~ sig_faulty (d_params d)) /\
-  (forall k d, binds_state b k d -> k = d_fname d /\ osm = true).
+Theorem define_ok_iff reserved dicts osm b :
+  (exists ns, define_class reserved dicts osm b = Ok ns) <->
+  (forall q k m r, b = q ++ (k, m) :: r -> entry_ok reserved dicts q m) /\
+  (forall k s, binds_state reserved dicts b k s -> k = s_name s /\ osm = true).
 Proof.
   unfold define_class, binds_state. split.
   - intros [ns H].
-    destruct (eval_body reserved b []) as [ns'|e] eqn:E; [|discriminate].
+    destruct (eval_body reserved dicts b []) as [ns'|e] eqn:E; [|discriminate].
     destruct (set_names osm ns') as [[]|e] eqn:S; [|discriminate].
-    destruct (eval_body_ok reserved b [] ns' E) as (A & B & C).
-    split.
-    + intros k d I. apply (member_ok_iff reserved (SState d)). exact (A k _ I).
-    + intros k d L. specialize (B k). rewrite L in B. cbn [eval_member] in B.
-      destruct (construct reserved d) as [s|e] eqn:K.
-      * apply dict_get_In in B. rewrite set_names_ok_iff in S.
-        destruct (S k s B) as [E1 E2]. destruct (construct_ok reserved d s K) as (_ & _ & Nm & _).
-        split; congruence.
-      * exfalso. assert (I : exists k', In (k', SState d) b).
-        { clear - L. induction b as [|[k1 m1] r IH]; cbn [lookup_last] in L; [discriminate|].
-          destruct (lookup_last k r) eqn:Q.
-          - destruct (IH L) as [k' I]. exists k'. right. exact I.
-          - destruct (String.eqb k1 k); [|discriminate]. inversion L; subst.
-            exists k1. left. reflexivity. }
-        destruct I as [k' I]. destruct (A k' _ I) as [v V]. cbn [eval_member] in V.
-        rewrite K in V. discriminate.
+    destruct (eval_body_ok reserved dicts b [] [] ns' (ns_denotes_nil _ _) E) as (_ & B & _).
+    split; [exact B|].
+    intros k s L. apply (final_ns reserved dicts b ns' E) in L.
+    rewrite set_names_ok_iff in S. exact (S k s L).
   - intros [A B].
-    destruct (eval_body_total reserved b []) as [ns E].
-    { intros k m I. apply member_ok_iff. destruct m as [d|]; [exact (A k d I) | exact Logic.I]. }
-    rewrite E. destruct (eval_body_ok reserved b [] ns E) as (_ & G & N).
+    destruct (eval_body_total reserved dicts b [] [] (ns_denotes_nil _ _) A) as [ns E].
+    rewrite E.
     assert (S : set_names osm ns = Ok tt).
-    { apply set_names_ok_iff. intros k s I.
-      apply In_dict_get in I; [|apply N; constructor].
-      rewrite G in I. destruct (lookup_last k b) as [m|] eqn:L; [|discriminate].
-      destruct m as [d|]; cbn [eval_member] in I.
-      - destruct (construct reserved d) as [s'|e] eqn:K; [|discriminate].
-        inversion I; subst s'. destruct (construct_ok reserved d s K) as (_ & _ & Nm & _).
-        destruct (B k d L) as [E1 E2]. split; congruence.
-      - discriminate. }
+    { apply set_names_ok_iff. intros k s I. apply (final_ns reserved dicts b ns E) in I. exact (B k s I). }
     rewrite S. exists ns. reflexivity.
 Qed.
 
-(* the property's wording: a state bound under another name, or in a class
-   that is not a StateMachine, makes the class statement raise *)
-Theorem alias_owner_rejected reserved osm b k d :
-  binds_state b k d -> k <> d_fname d \/ osm = false ->
-  exists e, define_class reserved osm b = Err e.
+(* every decorated function of an accepted body, overridden later or not, has
+   a free name and a legal signature *)
+Corollary define_ok_decorated reserved dicts osm b ns :
+  define_class reserved dicts osm b = Ok ns ->
+  forall k d, In (k, SState d) b -> ~ In (d_fname d) reserved /\ ~ sig_faulty (d_params d).
 Proof.
-  intros L H. destruct (define_class reserved osm b) as [ns|e] eqn:D; [|exists e; reflexivity].
-  exfalso. assert (X : exists ns, define_class reserved osm b = Ok ns) by (exists ns; exact D).
-  apply define_ok_iff in X. destruct X as [_ X]. destruct (X k d L) as [E1 E2].
+  intros D k d I.
+  assert (X : exists ns, define_class reserved dicts osm b = Ok ns) by (exists ns; exact D).
+  apply define_ok_iff in X. destruct X as [A _].
+  apply in_split in I. destruct I as [q [r E]]. exact (A q k (SState d) r E).
+Qed.
+
+(* the property's wording: a state bound under another name, or in a class
+   that is not a StateMachine, makes the class statement raise -- for every
+   binding of the state object, the first one or a later one *)
+Theorem alias_owner_rejected reserved dicts osm b k s :
+  binds_state reserved dicts b k s -> k <> s_name s \/ osm = false ->
+  exists e, define_class reserved dicts osm b = Err e.
+Proof.
+  intros L H. destruct (define_class reserved dicts osm b) as [ns|e] eqn:D; [|exists e; reflexivity].
+  exfalso. assert (X : exists ns, define_class reserved dicts osm b = Ok ns) by (exists ns; exact D).
+  apply define_ok_iff in X. destruct X as [_ X]. destruct (X k s L) as [E1 E2].
   destruct H; congruence.
 Qed.
 
-(* ... and with which exception, when every decorator call itself succeeded *)
-Theorem alias_owner_error reserved osm b ns e :
-  eval_body reserved b [] = Ok ns -> define_class reserved osm b = Err e ->
-  (e = EAlias /\ exists k d, binds_state b k d /\ k <> d_fname d) \/
-  (e = ENotStateMachine /\ osm = false /\ exists k d, binds_state b k d).
+(* ... and with which exception, when every line of the body itself succeeded *)
+Theorem alias_owner_error reserved dicts osm b ns e :
+  eval_body reserved dicts b [] = Ok ns -> define_class reserved dicts osm b = Err e ->
+  (e = EAlias /\ exists k s, binds_state reserved dicts b k s /\ k <> s_name s) \/
+  (e = ENotStateMachine /\ osm = false /\ exists k s, binds_state reserved dicts b k s).
 Proof.
   intros E D. unfold define_class in D. rewrite E in D.
   destruct (set_names osm ns) as [[]|e'] eqn:S; [discriminate|]. inversion D; subst e'.
-  destruct (eval_body_ok reserved b [] ns E) as (_ & G & N).
-  assert (T : forall k s, In (k, MState s) ns -> exists d, binds_state b k d /\ s_name s = d_fname d).
-  { intros k s I. apply In_dict_get in I; [|apply N; constructor].
-    rewrite G in I. unfold binds_state. destruct (lookup_last k b) as [m|]; [|discriminate].
-    destruct m as [d|]; cbn [eval_member] in I; [|discriminate].
-    destruct (construct reserved d) as [s'|e'] eqn:K; [|discriminate]. inversion I; subst s'.
-    exists d. split; [reflexivity|]. apply (construct_ok reserved d s K). }
+  pose proof (final_ns reserved dicts b ns E) as T. unfold binds_state.
   destruct (set_names_err osm ns e S) as [[E1 [k [s [I Nq]]]]|[E1 [O [k [s I]]]]].
-  - left. split; [exact E1|]. destruct (T k s I) as [d [Bd Nm]]. exists k, d. split; [exact Bd | congruence].
-  - right. split; [exact E1|]. split; [exact O|]. destruct (T k s I) as [d [Bd _]]. exists k, d. exact Bd.
+  - left. split; [exact E1|]. exists k, s. split; [apply T; exact I | exact Nq].
+  - right. split; [exact E1|]. split; [exact O|]. exists k, s. apply T. exact I.
+Qed.
+
+(* the exception of a rejected class statement: InvalidStateName (alias) and
+   TypeError (owner) come from __set_name__ only *)
+Theorem define_err_kinds reserved dicts osm b e : define_class reserved dicts osm b = Err e ->
+  (e = EAlias \/ e = ENotStateMachine) <-> exists ns, eval_body reserved dicts b [] = Ok ns.
+Proof.
+  intros D. unfold define_class in D.
+  destruct (eval_body reserved dicts b []) as [ns|e'] eqn:E.
+  - split; [intros _; exists ns; reflexivity|]. intros _.
+    destruct (set_names osm ns) as [[]|e''] eqn:S; [discriminate|]. inversion D; subst e''.
+    destruct (set_names_err osm ns e S) as [[E1 _]|[E1 _]]; auto.
+  - inversion D; subst e'. destruct (eval_body_err reserved dicts b [] e E) as [N1 N2].
+    split; [intros [H|H]; contradiction | intros [ns H]; discriminate].
+Qed.
+
+(* ---- second bindings of an existing state object -------------------- *)
+
+Lemma keys_rev {V} (l : list (string * V)) k : In k (keys (rev l)) <-> In k (keys l).
+Proof. unfold keys. rewrite map_rev. symmetry. apply in_rev. Qed.
+
+Lemma denotes_skip reserved dicts a b k : ~ In k (keys a) ->
+  denotes reserved dicts (a ++ b) k = denotes reserved dicts b k.
+Proof.
+  induction a as [|[k1 m1] r IH]; intros N; cbn [app denotes]; [reflexivity|].
+  destruct (String.eqb_spec k1 k) as [E|E].
+  - exfalso. apply N. left. exact E.
+  - apply IH. intros I. apply N. right. exact I.
+Qed.
+
+Lemma denotes_last reserved dicts pre k m post :
+  ~ In k (keys post) ->
+  denotes reserved dicts (rev (pre ++ (k, m) :: post)) k =
+  denotes reserved dicts ((k, m) :: rev pre) k.
+Proof.
+  intros N. rewrite rev_app_distr. cbn [rev]. rewrite <- app_assoc. cbn [app].
+  apply denotes_skip. rewrite keys_rev. exact N.
+Qed.
+
+(*   @state def k(..) ... k2 = k   : the second name of the state object is
+   rejected although the object has just been bound correctly under k *)
+Theorem rebinding_local_rejected reserved dicts osm pre k d mid k2 post :
+  ~ In k (keys mid) -> ~ In k2 (keys post) -> k2 <> d_fname d \/ osm = false ->
+  exists e, define_class reserved dicts osm (pre ++ (k, SState d) :: mid ++ (k2, SLocal k) :: post) = Err e.
+Proof.
+  intros Nm Np H.
+  set (b := pre ++ (k, SState d) :: mid ++ (k2, SLocal k) :: post).
+  destruct (define_class reserved dicts osm b) as [ns|e] eqn:D; [|exists e; reflexivity].
+  exfalso. assert (X : exists ns, define_class reserved dicts osm b = Ok ns) by (exists ns; exact D).
+  apply define_ok_iff in X. destruct X as [A B].
+  specialize (A pre k (SState d) (mid ++ (k2, SLocal k) :: post) eq_refl). cbn [entry_ok] in A.
+  apply construct_ok_iff in A. destruct A as [s K].
+  assert (L : binds_state reserved dicts b k2 s).
+  { unfold binds_state, b.
+    replace (pre ++ (k, SState d) :: mid ++ (k2, SLocal k) :: post)
+      with ((pre ++ (k, SState d) :: mid) ++ (k2, SLocal k) :: post)
+      by (rewrite <- app_assoc; reflexivity).
+    rewrite (denotes_last reserved dicts _ k2 (SLocal k) post Np).
+    cbn [denotes]. rewrite String.eqb_refl.
+    pose proof (denotes_last reserved dicts pre k (SState d) mid Nm) as Q.
+    rewrite Q. cbn [denotes]. rewrite String.eqb_refl, K. reflexivity. }
+  destruct (B k2 s L) as [E1 E2]. destruct (construct_ok reserved d s K) as (_ & _ & Nn & _).
+  destruct H; congruence.
+Qed.
+
+(*   k = C_c.__dict__[k0]  where that is a state: rejected unless k is the
+   state's own name and the class is a StateMachine *)
+Theorem rebinding_from_class_rejected reserved dicts osm pre k c k0 s post :
+  class_attr dicts c k0 = Some (MState s) -> ~ In k (keys post) ->
+  k <> s_name s \/ osm = false ->
+  exists e, define_class reserved dicts osm (pre ++ (k, SRef c k0) :: post) = Err e.
+Proof.
+  intros C Np H. apply (alias_owner_rejected reserved dicts osm _ k s); [|exact H].
+  unfold binds_state. rewrite (denotes_last reserved dicts pre k (SRef c k0) post Np).
+  cbn [denotes]. rewrite String.eqb_refl. exact C.
 Qed.
 
 (* ------------------------------------------------------------------ *)
 (* A module of several class statements                                 *)
+
+Definition flags_from (cs : list classdef) (known : list bool) : list bool :=
+  fold_left (fun kn c => kn ++ [is_sm kn (c_bases c)]) cs known.
+
+Definition class_dict (ns : dict member) (c : classdef) : dict member :=
+  ns ++ map (fun k => (k, MOther)) (c_extra c).
 
 Lemma define_from_spec reserved cs : forall idx known dicts,
   match define_from reserved idx cs known dicts with
   | Ok ds =>
       exists news, ds = dicts ++ news /\ List.length news = List.length cs /\
       forall i c, nth_error cs i = Some c ->
-        exists ns, define_class reserved (nth (List.length known + i)
-                      (fold_left (fun kn c => kn ++ [is_sm kn (c_bases c)]) cs known) false)
-                      (c_body c) = Ok ns /\
-                   nth_error news i = Some (ns ++ map (fun k => (k, MOther)) (c_extra c))
+        exists ns, define_class reserved (dicts ++ firstn i news)
+                      (nth (List.length known + i) (flags_from cs known) false) (c_body c) = Ok ns /\
+                   nth_error news i = Some (class_dict ns c)
   | Err (j, e) =>
-      exists i c, j = idx + i /\ nth_error cs i = Some c /\
-        define_class reserved (nth (List.length known + i)
-            (fold_left (fun kn c => kn ++ [is_sm kn (c_bases c)]) cs known) false)
-            (c_body c) = Err e /\
+      exists i c news, j = idx + i /\ nth_error cs i = Some c /\ List.length news = i /\
+        define_class reserved (dicts ++ news)
+            (nth (List.length known + i) (flags_from cs known) false) (c_body c) = Err e /\
         forall i' c', i' < i -> nth_error cs i' = Some c' ->
-          exists ns, define_class reserved (nth (List.length known + i')
-            (fold_left (fun kn c => kn ++ [is_sm kn (c_bases c)]) cs known) false)
-            (c_body c') = Ok ns
+          exists ns, define_class reserved (dicts ++ firstn i' news)
+            (nth (List.length known + i') (flags_from cs known) false) (c_body c') = Ok ns /\
+            nth_error news i' = Some (class_dict ns c')
   end.
 Proof.
   assert (FL : forall cs known i, i < List.length known ->
-     nth i (fold_left (fun kn c => kn ++ [is_sm kn (c_bases c)]) cs known) false = nth i known false).
-  { clear. induction cs as [|c r IH]; intros known i Hi; cbn [fold_left]; [reflexivity|].
+     nth i (flags_from cs known) false = nth i known false).
+  { clear. unfold flags_from. induction cs as [|c r IH]; intros known i Hi; cbn [fold_left]; [reflexivity|].
     rewrite IH by (rewrite app_length; cbn; lia). apply app_nth1. exact Hi. }
   induction cs as [|c r IH]; intros idx known dicts; cbn [define_from].
   - exists []. rewrite app_nil_r. repeat split. intros i c H. destruct i; discriminate.
-  - cbn [fold_left].
-    assert (F0 : nth (List.length known + 0)
-               (fold_left (fun kn c => kn ++ [is_sm kn (c_bases c)]) r (known ++ [is_sm known (c_bases c)])) false
-               = is_sm known (c_bases c)).
-    { rewrite FL by (rewrite app_length; cbn; lia).
+  - assert (F0 : nth (List.length known + 0) (flags_from (c :: r) known) false = is_sm known (c_bases c)).
+    { unfold flags_from. cbn [fold_left]. fold (flags_from r (known ++ [is_sm known (c_bases c)])).
+      rewrite FL by (rewrite app_length; cbn; lia).
       rewrite Nat.add_0_r, app_nth2 by lia. rewrite Nat.sub_diag. reflexivity. }
-    destruct (define_class reserved (is_sm known (c_bases c)) (c_body c)) as [ns|e] eqn:D.
+    assert (FS : forall i, nth (List.length known + S i) (flags_from (c :: r) known) false =
+                 nth (List.length (known ++ [is_sm known (c_bases c)]) + i)
+                     (flags_from r (known ++ [is_sm known (c_bases c)])) false).
+    { intros i. rewrite app_length. cbn [List.length].
+      replace (List.length known + S i) with (List.length known + 1 + i) by lia. reflexivity. }
+    destruct (define_class reserved dicts (is_sm known (c_bases c)) (c_body c)) as [ns|e] eqn:D.
     + specialize (IH (S idx) (known ++ [is_sm known (c_bases c)])
                      (dicts ++ [ns ++ map (fun k => (k, MOther)) (c_extra c)])).
-      rewrite app_length in IH. cbn [List.length] in IH.
+      fold (class_dict ns c) in IH |- *.
       destruct (define_from reserved (S idx) r _ _) as [ds|[j e]].
       * destruct IH as [news (E & L & P)].
-        exists ((ns ++ map (fun k => (k, MOther)) (c_extra c)) :: news). split.
+        exists (class_dict ns c :: news). split.
         -- rewrite E, <- app_assoc. reflexivity.
         -- split; [cbn [List.length]; lia|]. intros i c' H. destruct i as [|i]; cbn [nth_error] in H |- *.
-           ++ inversion H; subst c'. exists ns. rewrite F0. split; [exact D | reflexivity].
-           ++ destruct (P i c' H) as [ns' [D' N']]. exists ns'.
-              replace (List.length known + S i) with (List.length known + 1 + i) by lia. auto.
-      * destruct IH as [i [c' (E & N & D' & P)]]. exists (S i), c'.
-        split; [lia|]. split; [exact N|]. split.
-        -- replace (List.length known + S i) with (List.length known + 1 + i) by lia. exact D'.
-        -- intros i' c'' Hi H. destruct i' as [|i']; cbn [nth_error] in H.
-           ++ inversion H; subst c''. exists ns. rewrite F0. exact D.
-           ++ replace (List.length known + S i') with (List.length known + 1 + i') by lia.
-              apply (P i' c''); [lia | exact H].
-    + exists 0, c. split; [lia|]. split; [reflexivity|]. split; [rewrite F0; exact D|].
-      intros i' c' Hi. lia.
+           ++ inversion H; subst c'. exists ns. rewrite F0. cbn [firstn]. rewrite app_nil_r.
+              split; [exact D | reflexivity].
+           ++ destruct (P i c' H) as [ns' [D' N']]. exists ns'. rewrite FS. cbn [firstn].
+              rewrite <- app_assoc in D'. cbn [app] in D'. split; [exact D' | exact N'].
+      * destruct IH as [i [c' [news (E & N & L & D' & P)]]]. exists (S i), c', (class_dict ns c :: news).
+        split; [lia|]. split; [exact N|]. split; [cbn [List.length]; lia|]. split.
+        -- rewrite FS. rewrite <- app_assoc in D'. exact D'.
+        -- intros i' c'' Hi H. destruct i' as [|i']; cbn [nth_error] in H |- *.
+           ++ inversion H; subst c''. exists ns. rewrite F0. cbn [firstn]. rewrite app_nil_r.
+              split; [exact D | reflexivity].
+           ++ destruct (P i' c'' ltac:(lia) H) as [ns' [D'' N'']]. exists ns'. rewrite FS. cbn [firstn].
+              rewrite <- app_assoc in D''. cbn [app] in D''. split; [exact D'' | exact N''].
+    + exists 0, c, []. split; [lia|]. split; [reflexivity|]. split; [reflexivity|]. split.
+      * rewrite F0, app_nil_r. exact D.
+      * intros i' c' Hi. lia.
 Qed.
 
 (* a module is accepted iff every class statement is, each judged with
-   issubclass(owner, StateMachine) computed from its bases; otherwise the
-   first failing class statement raises *)
+   issubclass(owner, StateMachine) computed from its bases and with the
+   __dict__ of the classes before it; otherwise the first failing class
+   statement raises *)
 Theorem define_all_spec reserved cs :
   match define_all reserved cs with
   | Ok ds =>
       List.length ds = List.length cs /\
       forall i c, nth_error cs i = Some c ->
-        exists ns, define_class reserved (nth i (sm_flags cs) false) (c_body c) = Ok ns /\
+        exists ns, define_class reserved (firstn i ds) (nth i (sm_flags cs) false) (c_body c) = Ok ns /\
                    nth_error ds i = Some (ns ++ map (fun k => (k, MOther)) (c_extra c))
   | Err (j, e) =>
-      exists c, nth_error cs j = Some c /\
-        define_class reserved (nth j (sm_flags cs) false) (c_body c) = Err e /\
+      exists c ds, nth_error cs j = Some c /\ List.length ds = j /\
+        define_class reserved ds (nth j (sm_flags cs) false) (c_body c) = Err e /\
         forall i' c', i' < j -> nth_error cs i' = Some c' ->
-          exists ns, define_class reserved (nth i' (sm_flags cs) false) (c_body c') = Ok ns
+          exists ns, define_class reserved (firstn i' ds) (nth i' (sm_flags cs) false) (c_body c') = Ok ns /\
+                     nth_error ds i' = Some (ns ++ map (fun k => (k, MOther)) (c_extra c'))
   end.
 Proof.
   unfold define_all, sm_flags. pose proof (define_from_spec reserved cs 0 [] []) as S.
+  unfold flags_from, class_dict in S.
   destruct (define_from reserved 0 cs [] []) as [ds|[j e]]; cbn [List.length app Nat.add] in S.
   - destruct S as [news (E & L & P)]. subst ds. split; [exact L | exact P].
-  - destruct S as [i [c (E & N & D & P)]]. subst j. exists c. auto.
+  - destruct S as [i [c [news (E & N & L & D & P)]]]. subst j. exists c, news. auto.
+Qed.
+
+(* in an accepted module every class __dict__ that holds a state object --
+   however the object got there -- holds it under the state's own name, and
+   the class is a StateMachine *)
+Theorem define_all_wf reserved cs ds : define_all reserved cs = Ok ds ->
+  forall i d k s, nth_error ds i = Some d -> In (k, MState s) d ->
+    k = s_name s /\ nth i (sm_flags cs) false = true.
+Proof.
+  intros D i d k s N I. pose proof (define_all_spec reserved cs) as S. rewrite D in S.
+  destruct S as [L P].
+  assert (Hi : i < List.length cs) by (rewrite <- L; apply nth_error_Some; congruence).
+  destruct (nth_error cs i) as [c|] eqn:C; [|apply nth_error_None in C; lia].
+  destruct (P i c C) as [ns [Dc Nc]]. rewrite N in Nc. inversion Nc; subst d.
+  apply in_app_or in I. destruct I as [I|I].
+  - unfold define_class in Dc.
+    destruct (eval_body reserved (firstn i ds) (c_body c) []) as [ns'|e]; [|discriminate].
+    destruct (set_names (nth i (sm_flags cs) false) ns') as [[]|e] eqn:Sn; [|discriminate].
+    inversion Dc; subst ns'. exact (proj1 (set_names_ok_iff _ _) Sn k s I).
+  - apply in_map_iff in I. destruct I as [x [X _]]. discriminate.
 Qed.
